@@ -90,17 +90,19 @@ Definition c10_project_sx (p : proj) (plain_text zod_text : str) : sx :=
 
 (* type level: one type t placed as field f of struct S, as parameter p of commands c (parameter
    only) and d (parameter and a channel), as the channel of command e; command u takes S (and the
-   enum K when requested) so that both are emitted. [ct] is the structure the implementation read
+   enum K and the member-less struct Z when requested) so that they are emitted. [ct] is the structure the implementation read
    from the channel's message type text. *)
-Definition tcase_proj (m : mapping) (t : tstruct) (opt : bool) (with_enum : bool) (ct : tstruct) : proj :=
+Definition tcase_proj (m : mapping) (t : tstruct) (opt : bool) (with_enum with_unit : bool) (ct : tstruct) : proj :=
   let mem := {| m_key := L "p"; m_opt := opt; m_ty := t |} in
   {| p_types := [DStruct {| s_name := L "S"; s_fields := [{| m_key := L "f"; m_opt := opt; m_ty := t |}] |}] ++
-                (if with_enum then [DEnum {| e_name := L "K"; e_variants := [L "A"; L "B"] |}] else []);
+                (if with_enum then [DEnum {| e_name := L "K"; e_variants := [L "A"; L "B"] |}] else []) ++
+                (if with_unit then [DStruct {| s_name := L "Z"; s_fields := [] |}] else []);
      p_cmds := [{| c_tname := L "C"; c_params := [mem]; c_chans := [] |};
                 {| c_tname := L "D"; c_params := [mem]; c_chans := [(L "ch", ct)] |};
                 {| c_tname := L "E"; c_params := []; c_chans := [(L "ch", ct)] |};
                 {| c_tname := L "U"; c_params := {| m_key := L "s"; m_opt := false; m_ty := TCustom (L "S") |} ::
-                                                  (if with_enum then [{| m_key := L "k"; m_opt := false; m_ty := TCustom (L "K") |}] else []);
+                                                  (if with_enum then [{| m_key := L "k"; m_opt := false; m_ty := TCustom (L "K") |}] else []) ++
+                                                  (if with_unit then [{| m_key := L "z"; m_opt := false; m_ty := TCustom (L "Z") |}] else []);
                    c_chans := [] |}];
      p_map := m |}.
 
